@@ -94,8 +94,20 @@ def gen_case(rng, tier):
         if not math.isfinite(t):
             t = rng.randint(-2, 6) * 0.5 * scale
         diag.append([t, t])
+    reps = {}
+    for nm, D_ in (("X", X), ("Y", Y), ("Z", Z)):
+        if rng.random() < 0.35:
+            reps[nm] = dgmgen.representation(rng, D_)
+    if rng.random() < 0.06 and max_n <= 20:
+        # unsigned 8-bit data on all three sides
+        X, Y = dgmgen.gen_u8_pair(rng, max_n)
+        Z, _ = dgmgen.gen_u8_pair(rng, max_n)
+        perm = list(range(len(X)))
+        rng.shuffle(perm)
+        reps = {"X": "u8", "Y": "u8", "Z": "u8"}
+        diag = [[float(rng.randint(0, 255))] * 2]
     return {
-        "inputs": {"X": X, "Y": Y, "Z": Z, "perm": perm, "diag": diag,
+        "inputs": {"X": X, "Y": Y, "Z": Z, "perm": perm, "diag": diag, "reps": reps,
                    "shift": rng.choice((0.5, -1.0, 2.0, 0.3, -0.7, 3.25, 10.0, 100.0, 1024.0)) * scale,
                    "factor": rng.choice((2.0, 0.5, 4.0, 3.0, 0.1, 7.5, 1e3))},
         "config": {"set_order": "sim", "mode": rng.choice(("uniform", "uniform", "sparse", "reverse")),
@@ -107,9 +119,10 @@ def gen_case(rng, tier):
 class Ev(object):
     """Evaluates distances, each call under a fresh order (sim) or hash seed (real)."""
 
-    def __init__(self, sched, cfg):
+    def __init__(self, sched, cfg, reps=None):
         self.sched = sched
         self.cfg = cfg
+        self.reps = reps or {}
         self.n = 0
         self.hs = cfg.get("hashseeds") or []
         self.arrays = {}
@@ -121,7 +134,14 @@ class Ev(object):
         key = id(P)
         hit = self.arrays.get(key)
         if hit is None or hit[0] is not P:
-            hit = self.arrays[key] = (P, dgmgen.materialize(P))
+            rep = self.reps.get(id(P), "f64")
+            try:
+                a_ = dgmgen.materialize(P, rep)
+            except InvalidCase:
+                a_ = dgmgen.materialize(P)          # shrunk values no longer fit the form: plain float64
+            if rep in ("f32", "f16"):
+                a_ = dgmgen.materialize(P)          # narrow floats would change the values the laws speak about
+            hit = self.arrays[key] = (P, a_)
         return hit[1]
 
     def bott(self, P, Q):
@@ -164,7 +184,8 @@ def run_case(case, sched):
     if not (math.isfinite(shift) and math.isfinite(factor) and factor > 0):
         raise InvalidCase("bad shift/factor")
     laws = cfg.get("laws") or []
-    ev = Ev(sched, cfg)
+    rp = inp.get("reps") or {}
+    ev = Ev(sched, cfg, {id(D_): rp[nm] for nm, D_ in (("X", X), ("Y", Y), ("Z", Z)) if nm in rp})
     simset.CTX.iters = simset.CTX.permuted = 0
     nX, nY, nZ = len(X), len(Y), len(Z)
     sc = _scale(X, Y, Z)
